@@ -20,7 +20,7 @@
 // Grid D (malformed): every single-byte substitution (256 values x every position), every
 //
 //	truncation and short extension of valid hash strings, every string of length <= 2, all
-//	double substitutions in the 7-byte header over a 24-character alphabet: Cost and
+//	double substitutions in the 7-byte header over a 16/24-character alphabet: Cost and
 //	CompareHashAndPassword never panic, never succeed unless the model verifies.
 package main
 
@@ -257,7 +257,11 @@ func run(c *vf.Ctx) {
 			bgrid = append(bgrid, bp{n, v, 4})
 		}
 	}
-	for _, n := range []int{0, 1, 2, 55, 56, 57, 70, 71, 72, 73, 74, 80} {
+	costLens := []int{0, 1, 56, 71, 72, 73}
+	if c.Thorough {
+		costLens = []int{0, 1, 2, 55, 56, 57, 70, 71, 72, 73, 74, 80}
+	}
+	for _, n := range costLens {
 		bgrid = append(bgrid, bp{n, 3, 5}, bp{n, 4, 6})
 	}
 	sl := salts(c)
@@ -400,18 +404,19 @@ func run(c *vf.Ctx) {
 			if byte(val) == base[f.pos] {
 				continue
 			}
-			// quick tier: all 256 values on header+salt of the first base and on the header of
-			// the others; 72 values on the digest of the first base; 8 values elsewhere
-			if f.base == 0 && f.pos >= 29 && !c.Thorough {
-				// digest positions of the first base: all 64 alphabet characters + 8 invalid bytes
-				if strings.IndexByte(bcryptref.Alphabet, byte(val)) < 0 && !bytes.ContainsRune([]byte("\x00\xff$= \n-_"), rune(val)) {
-					continue
+			// quick tier: all 256 values on the header (positions 0..7) of every base; on salt and
+			// digest positions the 8 invalid bytes below plus 8 alphabet characters spread around
+			// the original one (every position is still hit by valid and invalid substitutions)
+			if f.pos >= 8 && !c.Thorough {
+				keep := bytes.ContainsRune([]byte("\x00\xff$= \n-_"), rune(val))
+				if k := strings.IndexByte(bcryptref.Alphabet, base[f.pos]); k >= 0 {
+					for _, d := range []int{1, 2, 7, 16, 31, 32, 47, 63} {
+						if byte(val) == bcryptref.Alphabet[(k+d)%64] {
+							keep = true
+						}
+					}
 				}
-			}
-			if f.base > 0 && f.pos >= 8 && !c.Thorough {
-				k := strings.IndexByte(bcryptref.Alphabet, base[f.pos])
-				next, prev := bcryptref.Alphabet[(k+1)%64], bcryptref.Alphabet[(k+63)%64]
-				if !bytes.ContainsRune([]byte("\x00\xff$= \n"), rune(val)) && byte(val) != next && byte(val) != prev {
+				if !keep {
 					continue
 				}
 			}
@@ -450,6 +455,9 @@ func run(c *vf.Ctx) {
 	})
 	// double substitutions in the 7-byte header
 	hdrAlpha := []byte("$0123459abxyz.+-/ \x00\xff=A\n")
+	if !c.Thorough {
+		hdrAlpha = []byte("$01249abz+- \x00\xffA\n")
+	}
 	var pairs [][2]int
 	for p := 0; p < 7; p++ {
 		for q := p + 1; q < 7; q++ {
